@@ -254,6 +254,9 @@ class Spec:
     def __init__(self, conf, policies=None):
         self.last_proto = {}     # service -> protocol it had when last configured (a removed service that still owes
         #                          answers keeps serving the clients that wait for it)
+        self.records = {}        # service -> number of queries the daemon counts as outstanding
+        self.cur = {}
+        self.classes = set()
         self.conf = conf
         self.policies = policies  # string after 'O S', None if no O line
         self.serial = 0
@@ -274,6 +277,30 @@ class Spec:
     def conf(self, c):
         self._conf = c
         self.last_proto.update({s_: p_ for s_, p_ in c.services.items() if p_})
+        # the service records: a configured service has one; a service that a reload dropped keeps its record for as
+        # long as the daemon counts outstanding queries for it (that count only goes down when a reply other than NO is
+        # heard by a waiting client, so queries of clients that left unanswered keep the record for good).  When the
+        # record goes, so does everything clients remember about that service: a service configured later - under the
+        # same name or another - starts from scratch with every client.
+        if not hasattr(self, "records"):
+            self.records = {}
+        for s_ in [s_ for s_ in self.records if not c.services.get(s_)]:
+            if self.records[s_] == 0:
+                self.release_record(s_)
+        for s_, p_ in c.services.items():
+            if p_:
+                self.records.setdefault(s_, 0)
+
+    def release_record(self, svc):
+        del self.records[svc]
+        self.classes.add("service_record_released")
+        for c in self.cur.values():
+            if c.live:
+                if svc in c.more or svc in c.queried or svc in c.ok:
+                    self.classes.add("client_forgets_released_service")
+                c.more.discard(svc)
+                c.queried.pop(svc, None)
+                c.ok.discard(svc)
 
     # ----------------------------------------------------------- required
     def required(self):
@@ -381,6 +408,7 @@ class Spec:
             return
         self.in_client = c
         self.in_kind = cmd
+        self.in_argc = len(argv)
         self.pre = self.snapshot_prereq(c)
         if cmd == "D":
             self.end(c, "D")
@@ -526,6 +554,10 @@ class Spec:
             c.got_text_reply = True
         elif kind == "AGAIN":
             c.got_text_reply = True
+        if kind != "NO" and svc in self.records:
+            self.records[svc] = max(0, self.records[svc] - 1)
+            if self.records[svc] == 0 and not self.conf.services.get(svc):
+                self.release_record(svc)
 
     # ------------------------------------------------------------- output
     def feed_output(self, step, lines):
@@ -551,11 +583,15 @@ class Spec:
         if self.cur.get(c.id) is not c:
             self.v("C01", "query_for_dead", "query carries tag %s of a replaced instance" % tag)
             return
+        if self.step not in c.queried.get(svc, []) and svc in self.records:
+            self.records[svc] += 1
         c.queried.setdefault(svc, []).append(self.step)
         c.owed_ever = True
         if svc not in c.owing:
             c.owing[svc] = self.step
         if text.startswith("MORE "):
+            if svc not in c.more and self.conf.services.get(svc):
+                self.v("C06", "more_forward_unasked", "a challenge response of %s was passed to %s, which has no challenge open with it" % (c.tag, svc))
             c.more.discard(svc)
         self.check_query(c, svc, text)
 
@@ -820,6 +856,10 @@ class Spec:
                 was = self.pre.get(svc, False) if self.in_kind != "C" else False
                 if now and not was and svc not in c.queried:
                     self.v("C06", "query_missing", "%s (%s) was not queried about %s in the step that completed its data" % (svc, proto, c.tag))
+                elif now and svc not in c.queried and (self.in_kind in ("d", "u", "H") or (self.in_kind == "n" and getattr(self, "in_argc", 0) >= 2)):
+                    # its data was complete before (the service came with a reload, or a namesake's record was
+                    # released): the daemon looks at the table on every data event, so this one must ask
+                    self.v("C06", "query_skipped", "%s (%s), configured and never asked about %s, was not queried on a data event (%s) although its data is complete" % (svc, proto, c.tag, self.in_kind))
                 if now and self.in_kind == "P-ok" and proto != "dronecheck" and self.step not in c.queried.get(svc, []):
                     # a well-formed password is data the login protocols need: it has to reach every
                     # login-capable service whose other prerequisites are complete, in this step
